@@ -72,7 +72,11 @@ def instant_cases(draw):
     else:
         e = draw(st.integers(EPOCH_LO, EPOCH_HI))
     e = max(EPOCH_LO, min(EPOCH_HI, e))
-    return {'tz': name, 'epoch': e}
+    # further rows of the same file: same zone, up to a day around the first
+    more = draw(st.lists(st.integers(-86400, 86400), max_size=4))
+    return {'tz': name, 'epoch': e,
+            'more': sorted(max(EPOCH_LO, min(EPOCH_HI, e + d))
+                           for d in more)}
 
 
 def fixed_offset_seconds(name):
@@ -110,6 +114,22 @@ def check_instant(case):
             '{} in {} -> {} -> {}'.format(text, case['tz'], got, back))
     offset = fixed_offset_seconds(case['tz'])
     labels = set()
+    # several rows in one call (one file): each must round-trip on its own
+    extra = [int(v) for v in case.get('more', [])]
+    if extra:
+        texts = [dataset.render_time(v, tz) for v in [e] + extra]
+        many = guarded(lambda: list(load_mod.generate_timestamped_rows(
+            [[t, '0'] for t in texts], tz)))
+        if len(many) != len(texts):
+            raise Violation('row-count-changed', repr(len(many)))
+        for t, row in zip(texts, many):
+            if dataset.render_time(row[0], tz) != t:
+                raise Violation(
+                    'timestamp-round-trip:row-in-sequence',
+                    '{} in {} -> {} -> {} (rows {})'.format(
+                        t, case['tz'], row[0],
+                        dataset.render_time(row[0], tz), texts))
+        labels.add('several-rows')
     if offset is not None:
         want = naive_seconds(text) - offset
         if got != want or got != e:
